@@ -192,13 +192,21 @@ def _make(cls_name, n, seed=11, dt=0.01):
     return eqsig.Signal(a, dt)
 
 
-def _apply(ctx, obj, mut, args):
+def _apply(ctx, obj, mut, args, fixed=False):
+    """Apply a mutator.  C04 is about cache coherence, not about which arguments a mutator accepts (C17): a mutator that
+    raises (e.g. a baseline correction on a record a history has driven to all zeros) is recorded as 'rejected' and the
+    object must still be coherent afterwards.  With the fixed, known-valid arguments of the exhaustive clauses a raise
+    means the harness no longer matches the library: inconclusive (exit 2), never a violation."""
     try:
         MUTATORS[mut](obj, args)
+        return True
     except Violation:
         raise
     except Exception as e:  # noqa
-        ctx.fail("%s(%r) raised %s: %s" % (mut, args, type(e).__name__, str(e)[:160]))
+        if fixed:
+            raise core.HarnessError("%s(%r) raised %s: %s on the fixed record" % (mut, args, type(e).__name__, str(e)[:160]))
+        ctx.cls("rejected=" + mut)
+        return False
 
 
 def _enum_cases(cls_name):
@@ -225,7 +233,7 @@ def _exhaustive(case, ctx):
     reads = [nm for b, nm in enumerate(state) if case["state"] >> b & 1]
     for nm in reads:
         read(obj, nm)
-    _apply(ctx, obj, case["mut"], FIXED_ARGS[case["mut"]])
+    _apply(ctx, obj, case["mut"], FIXED_ARGS[case["mut"]], fixed=True)
     fresh = fresh_of(obj)
     want = {nm: copy.deepcopy(read(fresh, nm)) for nm in obs}
     ctx.cls("mut=" + case["mut"], "reads=%d" % len(reads))
